@@ -265,7 +265,7 @@ class TD3LAP(TD3):
     def _kwargs(self, run, c):
         return dict(tau=c["tau"], policy_delay=c["policy_delay"], gradient_steps=c["gradient_steps"],
                     exploration_noise=c["exploration_noise"], target_policy_noise=c.get("target_policy_noise", 0.2),
-                    noise_clip=c["noise_clip"])
+                    noise_clip=c["noise_clip"], lap_alpha=c.get("lap_alpha", 0.4), lap_min_priority=c.get("lap_min_priority", 1.0))
 
     def make_buffer(self, run, size):
         from rl_blox.blox.replay_buffer import LAP
@@ -423,6 +423,8 @@ class NatureDQN(DQNFamily):
         return f(run.comps["q"], run.env, run.buffer, run.comps["q_opt"], **kw)
 
     def extra_kwargs(self, run):
+        if self.name == "ddqn_per":
+            return {"per_alpha": run.plan["cfg"].get("per_alpha", 0.6)}
         return {}
 
     def outcome(self, run, r):
